@@ -163,6 +163,16 @@ def check_builder(W, rec, rng):
 
         if parse_qsl(u.query, keep_blank_values=True) != list(q.items(multi=True)):
             rec.violation("C15/request-url-query-differs", f"{r.url!r} query vs {list(q.items(multi=True))!r}", case, monitor="identity")
+            return
+        # the same reconstruction through the environ-level function
+        from werkzeug.wsgi import get_current_url as wsgi_url
+
+        rec.observe("wsgi_get_current_url_checks")
+        for kw, attr in (({}, "url"), ({"strip_querystring": True}, "base_url"), ({"root_only": True}, "root_url"), ({"host_only": True}, "host_url")):
+            got = wsgi_url(r.environ, **kw)
+            if got != getattr(r, attr):
+                rec.violation("C15/wsgi-get_current_url-differs-from-request", f"wsgi.get_current_url(environ, {kw}) = {got!r}, Request.{attr} = {getattr(r, attr)!r}", case, monitor="identity")
+                return
 
 
 def check_dispatcher(W, rec, idx, of):
